@@ -8056,7 +8056,8 @@ func (e *ExpressionEmitter) emitImageSample(sample ir.ExprImageSample) (uint32, 
 type imageCoordinates struct {
 	valueID uint32
 	typeID  uint32
-	size    int // 0 for scalar, 2/3/4 for vector
+	size    int           // 0 for scalar, 2/3/4 for vector
+	scalar  ir.ScalarType // component type (i32 or u32)
 }
 
 // emitImageCoordinates builds a SPIR-V coordinate vector, combining coordinates
@@ -8083,10 +8084,15 @@ func (e *ExpressionEmitter) emitImageCoordinates(
 			return imageCoordinates{}, err
 		}
 		size := 0
-		if vec, ok := coordInner.(ir.VectorType); ok {
-			size = int(vec.Size)
+		scalar := ir.ScalarType{Kind: ir.ScalarSint, Width: 4}
+		switch inner := coordInner.(type) {
+		case ir.VectorType:
+			size = int(inner.Size)
+			scalar = inner.Scalar
+		case ir.ScalarType:
+			scalar = inner
 		}
-		return imageCoordinates{valueID: coordID, typeID: typeID, size: size}, nil
+		return imageCoordinates{valueID: coordID, typeID: typeID, size: size, scalar: scalar}, nil
 	}
 
 	arrayIndexID, err := e.emitExpression(*arrayIndex)
@@ -8144,7 +8150,7 @@ func (e *ExpressionEmitter) emitImageCoordinates(
 	ib.AddWord(arrayIndexID)
 	e.backend.builder.funcAppend(ib.Build(OpCompositeConstruct))
 
-	return imageCoordinates{valueID: combinedID, typeID: combinedTypeID, size: newSize}, nil
+	return imageCoordinates{valueID: combinedID, typeID: combinedTypeID, size: newSize, scalar: componentScalar}, nil
 }
 
 // emitImageFetchOrRead emits the actual image access instruction.
@@ -8377,9 +8383,19 @@ func (e *ExpressionEmitter) emitImageLoadRestrict(
 	if coords.size == 0 {
 		onesID = oneID
 	} else {
+		// The constituents must have the vector's own component type: u32
+		// coordinates need an unsigned 1, not the i32 one used for level/sample.
+		compOneID := oneID
+		if coords.scalar.Kind != ir.ScalarSint || coords.scalar.Width != 4 {
+			compTypeID, err := e.backend.emitScalarType(coords.scalar)
+			if err != nil {
+				return 0, err
+			}
+			compOneID = e.backend.builder.AddConstant(compTypeID, 1)
+		}
 		ones := make([]uint32, coords.size)
 		for i := range ones {
-			ones[i] = oneID
+			ones[i] = compOneID
 		}
 		onesID = e.backend.builder.AddConstantComposite(coords.typeID, ones...)
 	}
